@@ -315,3 +315,97 @@ def project_schema(sc, run):
             out.append({"e": "draw", "st": st, "diverging": bool(diverging), "changed": bool(changed),
                         "counter": sval(e["stats"], "draw"), "chain": sval(e["stats"], "chain")})
     return out
+
+
+def esh_closed_form(g, p0, step):
+    """Independent evaluation of the ESH momentum update: returns (p1, dke)."""
+    n = len(g)
+    gn = math.sqrt(sum(x * x for x in g))
+    gh = [x / gn for x in g]
+    a = sum(p * x for p, x in zip(p0, gh))
+    d = step * gn / (n - 1)
+    if abs(d) < 300:
+        ch, sh = math.cosh(d), math.sinh(d)
+        den = ch + a * sh
+        p1 = [(p + x * (sh + a * (ch - 1.0))) / den for p, x in zip(p0, gh)]
+        dke = (n - 1) * math.log(den)
+    else:
+        # large |d|: divide through by e^|d|/2
+        s = 1.0 if d > 0 else -1.0
+        den_s = (1 + s * a)            # (cosh d + a sinh d) * 2 e^-|d|  (up to e^-2|d|)
+        p1 = [(x * (s + a)) / den_s for x in gh]
+        dke = (n - 1) * (abs(d) - math.log(2.0) + math.log(den_s))
+    nrm = math.sqrt(sum(x * x for x in p1))
+    p1 = [x / nrm for x in p1]
+    return p1, dke
+
+
+def project_mclmc(sc, run):
+    st = sc["settings"]
+    tk = st.get("trajectory_kind", "EuclideanEarlyThenMicrocanonical")
+    frac = st.get("trajectory_switch_fraction", 0.3)
+    switch_draw = int(frac * float(st["num_tune"]))
+    dynamic = st.get("dynamic_step_size", True)
+    out = [{"e": "reset", "tk": tk, "switchDraw": switch_draw}]
+    eshok = True
+    nesh = 0
+    for e in run:
+        k = e["ev"]
+        if k == "esh":
+            g = [f_from_bits(x) for x in e["g"]]
+            p0 = [f_from_bits(x) for x in e["p0"]]
+            p1 = [f_from_bits(x) for x in e["p1"]]
+            step = f_from_bits(e["step"])
+            dke = f_from_bits(e["dke"])
+            ke0 = f_from_bits(e["ke0"])
+            nesh += 1
+            if all(math.isfinite(x) for x in g + p0 + [step]) and any(x != 0 for x in g):
+                try:
+                    q1, d1 = esh_closed_form(g, p0, step)
+                    ok = all(abs(a - b) <= 1e-9 for a, b in zip(p1, q1))
+                    ok = ok and abs(dke - d1) <= 1e-9 * (1 + abs(d1) + abs(ke0))
+                    ok = ok and abs(sum(x * x for x in p1) - 1.0) <= 1e-9
+                except (OverflowError, ValueError, ZeroDivisionError):
+                    ok = True   # outside the range where the closed form can be evaluated independently
+                eshok = eshok and ok
+        elif k == "mswitch":
+            out.append({"e": "mswitch", "draw": e["draw"]})
+        elif k == "mstart":
+            eps = f_from_bits(e["eps"])
+            L = e["length"]
+            nb = 1
+            if L is not None:
+                try:
+                    x = e["freq"] * L / eps
+                    nb = int(min(max(float(round_half_away(x)), 1.0), 1e6))
+                except (OverflowError, ValueError, ZeroDivisionError):
+                    nb = -1
+            vn = f_from_bits(e["vnorm2"])
+            out.append({"e": "mstart", "numBase": e["num_base"], "maxh": e["maxh"], "dynamic": bool(dynamic),
+                        "nbok": nb == e["num_base"], "kind": e["kind"], "resample": e["resample"],
+                        "unit": abs(vn - 1.0) <= 1e-9, "ph": e["ph"]})
+            eshok = True
+        elif k == "mstep":
+            fexp = int(round(-math.log2(e["factor"])))
+            line = {"e": "mstep", "res": e["res"], "fexp": fexp, "remaining": e["remaining"], "depth": e["depth"],
+                    "steps": e["steps"], "eshok": eshok, "unit": True}
+            if e["res"] == "ok":
+                vn = f_from_bits(e["vnorm2"])
+                # the norm is only constrained for the microcanonical kind; the start event carries the kind
+                micro = next((x for x in reversed(out) if x["e"] == "mstart"), {}).get("kind") == "Microcanonical"
+                line["unit"] = (abs(vn - 1.0) <= 1e-9) if micro else True
+            out.append(line)
+            eshok = True
+        elif k == "mend":
+            micro = next((x for x in reversed(out) if x["e"] == "mstart"), {}).get("kind") == "Microcanonical"
+            vn = f_from_bits(e["vnorm2"])
+            out.append({"e": "mend", "div": e["div"], "steps": e["steps"], "ph": e["ph"],
+                        "unit": (abs(vn - 1.0) <= 1e-9) if micro else True})
+        elif k == "draw_out" and e["res"] == "ok":
+            out.append({"e": "out", "numsteps": e["progress"]["num_steps"], "snumsteps": sval(e["stats"], "num_steps"),
+                        "diverging": e["progress"]["diverging"], "ph": e["ph"]})
+    return out, nesh
+
+
+def round_half_away(x):
+    return math.floor(x + 0.5) if x >= 0 else -math.floor(-x + 0.5)
